@@ -143,8 +143,10 @@ FAULT_RULE = ('corpus entry = one generated write request (all write '
               '(ordinal, fault kind). evaluations = simulated runs (corpus '
               'entries); fault points executed are reported as '
               'reach_probes.fault_points. distinct_nontrivial counts DISTINCT '
-              'corpus entries by (request kind, sequence of statement '
-              'verb+table, twin status).')
+              'fault placements that actually fired: (corpus entry = request '
+              'kind + sequence of statement verb+table + twin status, '
+              'ordinal, fault kind); distinct corpus entries are reported as '
+              'distinct_corpus_entries.')
 FAULT_ASSUME = [
     'fault personalities are emulations at the DBAPI seam: deadlock-keep = '
     'lock wait timeout (transaction kept), deadlock-rollback = MySQL 1213 '
@@ -305,6 +307,7 @@ class Aggregator(object):
         self.sim_seconds = 0.0
         self.samples = []
         self._scored = []
+        self.entries = set()
         self.others = {}
         self.by_profile = {}
         self.extra = {}
@@ -319,6 +322,8 @@ class Aggregator(object):
             self.states.add(s)
         for s in res.get('signatures', ()):
             self.signatures.add(s)
+        if res.get('entry_signature'):
+            self.entries.add(res['entry_signature'])
         for k, v in res.get('by_kind', {}).items():
             self.by_kind[k] = self.by_kind.get(k, 0) + v
         for k, v in res.get('by_status', {}).items():
@@ -360,6 +365,7 @@ class Aggregator(object):
             'responses_by_status': self.by_status,
             'distinct_states': len(self.states),
             'distinct_schedule_signatures': len(self.signatures),
+            'distinct_corpus_entries': len(self.entries),
             'faults_fired_by_kind': self.faults,
             'reach_probes': self.probes,
             'simulated_seconds': self.sim_seconds,
